@@ -116,12 +116,12 @@ def probe_module(idx, d, text, info):
                 e = edges[(s, ev['name'])]
                 aw = '.await' if asy else ''
                 fn = 'async fn' if asy else 'fn'
-                L.append(f'{fn} pt{n}(m: {MT(s)}) {{ let _r: Result<{MT(e["target"])}, ({MT(s)}, state_machines::core::GuardError)> = m.{ev["method"]}({arg}){aw}; }}')
+                L.append(f'{fn} pt{n}(m: {MT(s)}) {{ let _r: ::core::result::Result<{MT(e["target"])}, ({MT(s)}, state_machines::core::GuardError)> = m.{ev["method"]}({arg}){aw}; }}')
                 probes.append((len(L) - 1, 'types', True, 'E0308', f'{ev["method"]} on {M}<{s}> : Result<{M}<{e["target"]}>, ({M}<{s}>, GuardError)>'))
                 n += 1
                 wrong = [t for t in states if t != e['target']]
                 if wrong:
-                    L.append(f'{fn} pw{n}(m: {MT(s)}) {{ let _r: Result<{MT(wrong[0])}, ({MT(s)}, state_machines::core::GuardError)> = m.{ev["method"]}({arg}){aw}; }}')
+                    L.append(f'{fn} pw{n}(m: {MT(s)}) {{ let _r: ::core::result::Result<{MT(wrong[0])}, ({MT(s)}, state_machines::core::GuardError)> = m.{ev["method"]}({arg}){aw}; }}')
                     probes.append((len(L) - 1, 'types', False, 'E0308', f'{ev["method"]} on {M}<{s}> must not be typed in {wrong[0]}'))
                     n += 1
         newcall = f'{M}::<{s}>::new(Ctx::default())' if conc else f'{M}::<Ctx, {s}>::new(Ctx::default())'
@@ -186,7 +186,8 @@ def cargo_check(cdir, target_dir):
                 lines.add(sp['line_start'])
             if sp.get('expansion'):
                 walk(sp['expansion']['span'])
-        for sp in m.get('spans', []):
+        prim = [sp for sp in m.get('spans', []) if sp.get('is_primary')] or m.get('spans', [])
+        for sp in prim:
             walk(sp)
         errs.append({'code': code, 'lines': sorted(lines), 'msg': m.get('message', '')[:200]})
     return r.returncode == 0, errs, r.stderr[-1500:]
@@ -350,5 +351,146 @@ def run(tier, seed, work, repo):
                 es = [e for e in errs if any(a <= l <= b for l in e['lines'])]
                 if not es:
                     res['illformed_accepted'].append({'rule': rule, 'dsl': text, 'phase': name})
+    shutil.rmtree(root, ignore_errors=True)
+    return res
+
+
+# ---------------------------------------------------------------------------------------
+# known findings (C14) and adversarial identifiers (C18)
+
+def _simple_def(name='M', states=('A', 'B'), events=(('go', 'A', 'B'),), initial=None, dynamic=True, ctx=None, data=None):
+    d = [('name', name)]
+    if ctx:
+        d.append(('context', ctx))
+    if dynamic:
+        d.append(('dynamic', True))
+    d.append(('initial', initial or states[0]))
+    d.append(('states', [('leaf', s, (['D'] if data and s in data else None)) for s in states]))
+    d.append(('events', [(en, [('transition', [('from', [src], False), ('to', tgt)])]) for (en, src, tgt) in events], True))
+    return d
+
+KNOWN_PROBES = [
+    # (finding id, description, definition, extra prelude) — each is a well-formed definition that does not compile today
+    ('F5-pascal-collision', 'events `a1` and `a_1` both become variant `A1` under dynamic dispatch',
+     _simple_def(events=(('a1', 'A', 'B'), ('a_1', 'B', 'A'))), ''),
+    ('F5-field-collision', 'data states `HTTPServer` and `HttpServer` get the same storage field',
+     _simple_def(states=('HTTPServer', 'HttpServer'), events=(('go', 'HTTPServer', 'HttpServer'),), data=('HTTPServer', 'HttpServer')), ''),
+    ('F5-event-named-new', 'an event named `new` from the initial state clashes with the constructor',
+     _simple_def(events=(('new', 'A', 'B'),), dynamic=False), ''),
+    ('F7-concrete-ctx-without-default', 'concrete context without Default under dynamic dispatch: the generated `impl Default … where Ctx: Default` is rejected',
+     _simple_def(ctx=['NoDef']), '#[derive(Debug)] pub struct NoDef;\n'),
+]
+
+ADVERSARIAL = ['C', 'S', 'T', 'Ok', 'Err', 'Some', 'None', 'Result', 'Option', 'Default', 'Debug', 'Self_', 'Box', 'Send',
+               'PhantomData', 'Sync', 'Copy', 'M']
+
+def rename_twin_probe(adv, concrete, dynamic):
+    """a definition whose first leaf is called `adv`, and its twin with a neutral name; the probes of both
+    (method matrix, new, accessors) must agree modulo the renaming whenever both compile"""
+    def mk(first):
+        return _simple_def(name='Mach', states=(first, 'Other', 'Third'), events=(('go', first, 'Other'), ('back', 'Other', first)),
+                           dynamic=dynamic, ctx=(['Ctx'] if concrete else None), data=(first,))
+    return mk(adv), mk('Neutral')
+
+def run_known_and_rename(work, repo):
+    """returns {'known': [{id, reproduced, ...}], 'rename': [{identifier, concrete, dynamic, verdict, ...}]}"""
+    root = os.path.join(work, 't4k')
+    shutil.rmtree(root, ignore_errors=True)
+    os.makedirs(root, exist_ok=True)
+    res = {'known': [], 'rename': []}
+    # ---- known findings: one crate each (they fail in different compiler phases)
+    kjobs = []
+    for fid, desc, d, extra in KNOWN_PROBES:
+        info = T.get_infos([('k', False, d)]).get('k', {})
+        text = D.to_text(d)
+        src = PRELUDE_STD + extra + 'use state_machines::state_machine;\nstate_machine! {\n' + text + '\n}\n'
+        if 'name' in info:
+            src += hooks_impl(d, info) + '\n'
+        src += 'fn main() {}\n'
+        cdir = os.path.join(root, fid)
+        write_crate(cdir, src, repo, False)
+        kjobs.append((fid, desc, cdir, text))
+    # ---- rename, round 1: which adversarial definitions compile at all (one crate, module per definition)
+    cases = []
+    for adv in ADVERSARIAL:
+        for concrete in (False, True):
+            for dynamic in (False, True):
+                a, n = rename_twin_probe(adv, concrete, dynamic)
+                cases.append({'adv': adv, 'concrete': concrete, 'dynamic': dynamic, 'def': a, 'twin': n})
+    infos = T.get_infos([(f'a{i}', False, c['def']) for i, c in enumerate(cases)] +
+                        [(f't{i}', False, c['twin']) for i, c in enumerate(cases)])
+    src = PRELUDE_STD
+    line = src.count('\n') + 1
+    for i, c in enumerate(cases):
+        text = D.to_text(c['def'])
+        body = f'pub mod a{i} {{\nuse super::*;\nuse state_machines::state_machine;\nstate_machine! {{\n{text}\n}}\n}}\n'
+        n = body.count('\n')
+        c['range'] = (line, line + n - 1)
+        c['text'] = text
+        src += body
+        line += n
+    src += 'fn main() {}\n'
+    cdir1 = os.path.join(root, 'rn1')
+    write_crate(cdir1, src, repo, False)
+    def go(job):
+        return cargo_check(job, os.path.join(root, 'tgt_' + os.path.basename(job)))
+    with ThreadPoolExecutor(8) as ex:
+        outs = list(ex.map(go, [k[2] for k in kjobs] + [cdir1]))
+    for (fid, desc, cdir, text), (ok, errs, stderr) in zip(kjobs, outs[:-1]):
+        res['known'].append({'id': fid, 'what': desc, 'reproduced': not ok, 'dsl': text,
+                             'errors': [f"{e['code']}: {e['msg']}" for e in errs[:2]]})
+    ok1, errs1, _ = outs[-1]
+    for c in cases:
+        a, b = c['range']
+        es = [e for e in errs1 if any(a <= l <= b for l in e['lines'])]
+        c['errors'] = [f"{e['code']}: {e['msg']}" for e in es[:2]]
+        c['compiles'] = not es
+    # ---- round 2: the ones that compile, and their twins, with the whole probe matrix
+    src = PRELUDE_STD
+    line = src.count('\n') + 1
+    allp = []
+    idx = 0
+    for i, c in enumerate(cases):
+        if not c['compiles']:
+            continue
+        for which, d, key in (('adv', c['def'], f'a{i}'), ('twin', c['twin'], f't{i}')):
+            info = infos.get(key, {})
+            if 'name' not in info:
+                continue
+            L, probes = probe_module(idx, d, D.to_text(d), info)
+            idx += 1
+            c[which + '_probes'] = [(line + off, kind, what) for (off, kind, okx, code, what) in probes]
+            c[which + '_range'] = (line, line + len(L) - 1)
+            src += '\n'.join(L) + '\n'
+            line += len(L)
+    src += 'fn main() {}\n'
+    cdir2 = os.path.join(root, 'rn2')
+    write_crate(cdir2, src, repo, False)
+    ok2, errs2, _ = cargo_check(cdir2, os.path.join(root, 'tgt_rn2'))
+    bad_lines = set()
+    for e in errs2:
+        bad_lines.update(e['lines'])
+    for c in cases:
+        if not c['compiles']:
+            res['rename'].append({'identifier': c['adv'], 'concrete': c['concrete'], 'dynamic': c['dynamic'],
+                                  'verdict': 'does-not-compile', 'difference': None, 'dsl': c['text'], 'errors': c['errors']})
+            continue
+        pa, pt = c.get('adv_probes', []), c.get('twin_probes', [])
+        # errors inside the definition's module that are not on a probe line: it does not compile after all
+        if 'adv_range' in c:
+            lo, hi = c['adv_range']
+            plines = {l for (l, _, _) in pa}
+            late = [e for e in errs2 if any(lo <= l <= hi and l not in plines for l in e['lines'])]
+            if late:
+                res['rename'].append({'identifier': c['adv'], 'concrete': c['concrete'], 'dynamic': c['dynamic'],
+                                      'verdict': 'does-not-compile', 'difference': None, 'dsl': c['text'],
+                                      'errors': [f"{e['code']}: {e['msg']}" for e in late[:2]]})
+                continue
+        diff = []
+        for (la, ka, wa), (lt, kt, wt) in zip(pa, pt):
+            if (la in bad_lines) != (lt in bad_lines):
+                diff.append({'probe': wa, 'adversarial_compiles': la not in bad_lines, 'twin_probe': wt, 'twin_compiles': lt not in bad_lines})
+        res['rename'].append({'identifier': c['adv'], 'concrete': c['concrete'], 'dynamic': c['dynamic'],
+                              'verdict': 'differs' if diff else 'same', 'difference': diff[:4] or None, 'dsl': c['text'], 'errors': []})
     shutil.rmtree(root, ignore_errors=True)
     return res
